@@ -146,8 +146,7 @@ impl<R: io::Read> Parse<R> for uri::Rsync {
         let len = usize::try_from(u32::parse(source)?).map_err(|_| {
             ParseError::format("URI too large for this system")
         })?;
-        let mut bits = vec![0u8; len];
-        source.read_exact(&mut bits)?;
+        let bits = read_exact_vec(source, len)?;
         Self::from_bytes(bits.into()).map_err(|err| {
             ParseError::format(format!("bad URI: {err}"))
         })
@@ -174,8 +173,7 @@ impl<R: io::Read> Parse<R> for uri::Https {
         let len = usize::try_from(u32::parse(source)?).map_err(|_| {
             ParseError::format("URI too large for this system")
         })?;
-        let mut bits = vec![0u8; len];
-        source.read_exact(&mut bits)?;
+        let bits = read_exact_vec(source, len)?;
         Self::from_bytes(bits.into()).map_err(|err| {
             ParseError::format(format!("bad URI: {err}"))
         })
@@ -211,8 +209,7 @@ impl<R: io::Read> Parse<R> for Option<uri::Https> {
         let len = usize::try_from(len).map_err(|_| {
             ParseError::format("URI too large for this system")
         })?;
-        let mut bits = vec![0u8; len];
-        source.read_exact(&mut bits)?;
+        let bits = read_exact_vec(source, len)?;
         uri::Https::from_bytes(bits.into()).map_err(|err| {
             ParseError::format(format!("bad URI: {err}"))
         }).map(Some)
@@ -239,8 +236,7 @@ impl<R: io::Read> Parse<R> for Bytes {
         let len = usize::try_from(u64::parse(source)?).map_err(|_| {
             ParseError::format("data block too large for this system")
         })?;
-        let mut bits = vec![0u8; len];
-        source.read_exact(&mut bits)?;
+        let bits = read_exact_vec(source, len)?;
         Ok(bits.into())
     }
 }
@@ -271,8 +267,7 @@ impl<R: io::Read> Parse<R> for Option<Bytes> {
         let len = usize::try_from(len).map_err(|_| {
             ParseError::format("data block large for this system")
         })?;
-        let mut bits = vec![0u8; len];
-        source.read_exact(&mut bits)?;
+        let bits = read_exact_vec(source, len)?;
         Ok(Some(bits.into()))
     }
 }
@@ -420,6 +415,32 @@ where
         }
         Ok(res)
     }
+}
+
+
+//------------ Helper Functions ----------------------------------------------
+
+/// Reads exactly `len` bytes into a new vec.
+///
+/// Since `len` comes from the data we are reading and may be nonsense if
+/// that data is broken, the vec is grown as data actually arrives rather
+/// than allocated in one go.
+fn read_exact_vec(
+    source: &mut impl io::Read, len: usize
+) -> Result<Vec<u8>, io::Error> {
+    let mut res = Vec::new();
+    let read = io::Read::read_to_end(
+        &mut io::Read::take(
+            &mut *source, u64::try_from(len).unwrap_or(u64::MAX)
+        ),
+        &mut res
+    )?;
+    if read != len {
+        return Err(io::Error::new(
+            io::ErrorKind::UnexpectedEof, "unexpected end of data"
+        ))
+    }
+    Ok(res)
 }
 
 
